@@ -17,8 +17,10 @@ LineExact(r) == r.stored = 1 => UnitExact(Eff(r).ml, Eff(r).mx, r.glen, r.blen, 
 LineL2(r) == LET w == L2Why(r.path, Eff(r).ml, Eff(r).mx, FixMin, r.glen, r.blen, r.bad) IN
              /\ (r.stored = 1) = (r.res = "ok")
              \* the zxcvbn score is not transcribed: a refusal for weakness is explained whenever the
-             \* transcribed checks pass (the direct path reports weakness as "badlisted")
-             /\ IF w = "ok" THEN r.why \in ({"ok", "weak"} \cup (IF r.path = "direct_unix" THEN {"badlisted"} ELSE {}))
+             \* transcribed length checks pass (it precedes the badlist check; the direct path reports
+             \* weakness as "badlisted", or as InvalidState when zxcvbn has no feedback for the score)
+             /\ IF w \in {"ok", "badlisted"}
+                THEN r.why \in ({w, "weak"} \cup (IF r.path = "direct_unix" THEN {"badlisted", "other:err:InvalidState"} ELSE {}))
                 ELSE r.why = w
 Init == l = 1
 Next == l <= Len(Rec) /\ l' = l + 1
